@@ -460,6 +460,18 @@ func TestC15(t *testing.T) {
 		s := GenFull(rt, Opts{Descs: true, HostileTxt: true, Directives: true, Deprecated: true})
 		o := hx.SDLOpts{Commas: rapid.Bool().Draw(rt, "commas"), BlockDesc: rapid.Bool().Draw(rt, "blockDesc")}
 		one(rt.Fatalf, &c15Case{SDL: Render(s, nil, o)})
+		if rapid.IntRange(0, 3).Draw(rt, "numbersWrittenAsStrings") == 0 {
+			// ggql's Int64, Float64 and Time take their values as strings too: input members whose
+			// defaults are written that way, filled into directive argument values that leave them out
+			big := rapid.SampledFrom([]string{`"9000000000"`, `"-9223372036854775808"`, `"7"`}).Draw(rt, "nsBig")
+			frac := rapid.SampledFrom([]string{`"0.25"`, `"1e300"`, `"-2.5"`}).Draw(rt, "nsFrac")
+			at := rapid.SampledFrom([]string{`"2021-03-04T05:06:07Z"`, `"2021-03-04T05:06:07.5+02:00"`}).Draw(rt, "nsAt")
+			use := rapid.SampledFrom([]string{"{}", "{big: 1}", `{frac: "3.5", at: "2020-01-02T03:04:05Z"}`, "{at: null}"}).Draw(rt, "nsUse")
+			dflt := rapid.SampledFrom([]string{"{}", `{big: "12"}`, "{frac: 2}"}).Draw(rt, "nsDflt")
+			extra := fmt.Sprintf("input ZqNum { big: Int64 = %s frac: Float64 = %s at: Time = %s }\ndirective @zqlimits(o: ZqNum = %s, l: [ZqNum] = [%s]) on OBJECT | ENUM\ntype ZqHolder @zqlimits(o: %s) { a: Int }\nenum ZqHeld @zqlimits { A }\n",
+				big, frac, at, dflt, use, use)
+			one(rt.Fatalf, &c15Case{SDL: Render(s, nil, o) + extra})
+		}
 		if rapid.IntRange(0, 2).Draw(rt, "goAPI") == 0 {
 			// the same schema assembled in code: what is printed was never text before
 			one(rt.Fatalf, &c15Case{SDL: Render(s, nil, o), Model: s})
